@@ -11,11 +11,12 @@ CONSTANTS
   AttachGuard = TRUE
   SaveGuard = TRUE
   ObjSeq <- Seq3a
+  HandMode = FALSE
   Bias = FALSE
   Quiet = FALSE
 INIT Init
 NEXT Next
 VIEW view
 ACTION_CONSTRAINT EmitEdge
-INVARIANTS RefinesDecl RefCountExact OwnerIffSingle NoDangling ReachableUnlessCyclic NoPanic
+INVARIANTS RefinesDecl RefCountExact OwnerIffSingle NoDangling IdCounter ReachableUnlessCyclic NoPanic
 CHECK_DEADLOCK FALSE
